@@ -63,6 +63,9 @@ def sources(tier, seed, ctx):
     for j in range(nrand):
         srcs.append({'k': 'rand', 'seed': rng.randrange(10**9), 'n': rng.randint(4, 16), 'from': 'rand'})
     srcs += refusal_matrix()
+    # deep circuits (one path longer than the interpreter's recursion limit) through the copying and the local mutators
+    for j, what in enumerate(['copy', 'deepcopy', 'rename', 'add-remove', 'order', 'block']):
+        srcs.append({'k': 'deep', 'depth': 1500 if tier == 'quick' else 3000, 'what': what, 'rev': bool(j % 2), 'from': 'deep'})
     harvested = harvest(tier)
     note.append(f'{len(harvested)} outermost public mutator calls harvested from the repository\'s own tests run under vf/tracer.py')
     srcs += [{'k': 'harvested', 'rec': r, 'from': 'harvest'} for r in harvested]
@@ -134,7 +137,38 @@ def probes():
     return H.finding_probes(PROP)
 
 
+def _deep_op(what):
+    import copy as _copy
+    from cirbo.core.circuit import gate as G
+
+    def f(c):
+        if what == 'copy':
+            return _copy.copy(c)
+        if what == 'deepcopy':
+            return _copy.deepcopy(c)
+        n = len(c.gates) - 2
+        name = lambda k: f'g{k}' if c.has_gate(f'g{k}') else f'g{k}_'       # the chain gate at depth k, whatever the storage order
+        mid = name(n // 2)
+        if what == 'rename':
+            c.rename_gate(mid, 'renamed_mid')
+        elif what == 'add-remove':
+            c.emplace_gate('on_top', G.AND, (c.outputs[0], mid))
+            c.remove_gate('on_top')
+        elif what == 'order':
+            c.order_inputs(list(c.inputs))
+            c.order_outputs(list(c.outputs)[::-1])
+            c.order_outputs(list(c.outputs)[::-1])
+        elif what == 'block':
+            c.make_block_from_slice('deep_block', [name(10), 'y'], [mid])
+            c.delete_block('deep_block')
+        return c
+    return f
+
+
 def record(src):
+    if src['k'] == 'deep':
+        from .. import deep
+        return deep.transform_case(PROP, src['what'], src, _deep_op(src['what']))
     if src['k'] == 'harvested':
         r = src['rec']
         step = {'act': r['act'], 'ret': r['ret'], 'post': r['post']}
@@ -150,10 +184,14 @@ def record(src):
 
 
 def nontrivial(case):
+    if case['kind'] == 'transformdeep':
+        return True
     return any(s['act']['a'] not in ('add_gate', 'mark_as_output') for s in case['steps'])
 
 
 def features(case):
+    if case['kind'] == 'transformdeep':
+        return {'deep:' + case['what']}
     seen = set()
     for s in case['steps']:
         a = s['act']
